@@ -392,6 +392,49 @@ func c01Drive(args []string) int {
 			}
 		}
 	}
+	// a long run of records that the target filter rejects, then one that passes: the Read that spans the run returns a
+	// record, the next one the end - however long the run (the driver's stacks are capped at 16 MB)
+	for _, c := range c17Cases() {
+		if !strings.Contains(c.Name, "filtered") || c.Period != 1 {
+			continue
+		}
+		sch, err, p := newSchema([]byte(c.Schema))
+		if err != nil || p != "" {
+			fmt.Println("error: schema rejected", c.Name, err, p)
+			return 3
+		}
+		const run = 150000
+		rd := &repeatReader{prefix: c.Prefix, suffix: c.Suffix, k: run + 1, unit: func(i int) string {
+			if i < run {
+				return c.Unit(1) // the rejected kind
+			}
+			return c.Unit(0)
+		}}
+		emit(M{"kind": "progress", "case": "long run of filtered-out records: " + c.Name})
+		flush()
+		tr, err := sch.NewTransform("in", rd, &transformctx.Ctx{})
+		if err != nil {
+			fmt.Println("error:", c.Name, err)
+			return 3
+		}
+		var classes []string
+		for k := 0; k < 6; k++ {
+			var e error
+			pv, _ := guarded(0, func() { _, e = tr.Read() })
+			if pv != "" {
+				violation("C01", "panic", "a Read over a long run of filtered-out records panicked: "+pv, M{"case": c.Name})
+				break
+			}
+			classes = append(classes, classify(e))
+			if classify(e) == "eof" || classify(e) == "fatal" {
+				break
+			}
+		}
+		sum.eval(true, M{"long-filtered": c.Name})
+		if got := strings.Join(classes, " "); !strings.HasSuffix(got, "ok eof") && !strings.HasSuffix(got, "ok ok eof") {
+			violation("C01", "long-filtered-run:"+c.Name, fmt.Sprintf("%s: %d filtered-out records and one that passes: results %v", c.Name, run, classes), M{"case": c.Name})
+		}
+	}
 	mustWriteNDJSON(outPath, events)
 	sum.inc("trace_events", len(events))
 	sum.done()
